@@ -1613,6 +1613,12 @@ func clientReplyOracle(sc *scenario, c *websocket.Conn, resp *http.Response, err
 			if wellFormed && !quoted && firstBoth && !(cw && cr) {
 				sc.violate("the 101 announces permessage-deflate with both no_context_takeover parameters (%q) and Dial succeeded, but the client does not use compression: the endpoints disagree", pr.Header["Sec-Websocket-Extensions"])
 			}
+			// a server that announces the extension compresses; when no announcement carries both parameters
+			// the client may not use compression (oracle below), so the only way for the two endpoints to
+			// agree is that the Dial fails (round-9 change C15-17: such announcements were skipped)
+			if wellFormed && !quoted && firstSeen && !both {
+				sc.violate("the 101 announces permessage-deflate without both no_context_takeover parameters (%q) and Dial succeeded (client compresses=%v): the server will compress, the endpoints disagree", pr.Header["Sec-Websocket-Extensions"], cw)
+			}
 			if cw != cr {
 				sc.violate("client compresses=%v but accepts compressed=%v", cw, cr)
 			}
